@@ -115,7 +115,13 @@ func runC13(c *core.Ctx) {
 	t := c.T
 	verifyOnly := t.Chance(1, 3)
 	withTx := t.Chance(2, 3)
+	fd, endF := nw.StartF(c) // Engine F phase: the node's goroutines under the statement scheduler
+	defer endF()
 	w := nw.New(c, nw.Options{TxManager: withTx})
+	w.FD = fd
+	if fd != nil {
+		w.Early = 15
+	}
 	c.Event("config verifyOnly=%v txManager=%v", verifyOnly, withTx)
 
 	if t.Chance(1, 5) {
@@ -295,7 +301,7 @@ func runC13Manager(c *core.Ctx, w *nw.World, withTx bool) {
 			w.TxM.AddTxID(w.Ctx, uuid.New(), h)
 		}
 	}
-	time.Sleep(3 * time.Second)
+	w.Sleep(3 * time.Second)
 	hash := w.Repo.LastHash()
 	_, err := m.RequestBlock(w.Ctx, hash, func(ctx2 context.Context, header *wire.BlockHeader, txCount uint64, txChannel <-chan *wire.MsgTx) error {
 		return nil
@@ -335,6 +341,6 @@ func init() {
 			"verify-reply:bsv-split-header", "verify-reply:bsv-split-header+more", "verify-reply:bch-split-header", "verify-reply:random-header", "verify-reply:zero-headers", "verify-reply:nonzero-tx-count", "verify-reply:silence",
 			"pre-verification:headers(connecting)", "pre-verification:inv", "pre-verification:tx", "pre-verification:block", "pre-verification:extmsg(tx)", "pre-verification:extmsg(block)", "pre-verification:addr"},
 		Run:          runC13,
-		QuickSeconds: 20, ThoroughSeconds: 600, MinRuns: 300, BatchSize: 50, RunTimeoutSeconds: 180,
+		QuickSeconds: 20, ThoroughSeconds: 600, MinRuns: 300, BatchSize: 50, RunTimeoutSeconds: 180, FQuickSeconds: 12, FThoroughSeconds: 300,
 	})
 }
